@@ -379,20 +379,21 @@ Section Closure.
 
   (* --- two group lists with the same closure --- *)
   Definition same_shape (G G' : list group) : Prop :=
-    Forall2 (fun g g' => gid g' = gid g /\ (forall i, In i (includes g') <-> In i (includes g)) /\ nlex g' = nlex g) G G'.
+    Forall2 (fun g g' => gid g' = gid g /\ (forall i, In i (includes g') <-> In i (includes g)) /\ nlex g' = nlex g /\
+                         (forall s, In s (members g') -> In s (members g))) G G'.
 
   Definition equiv (G G' : list group) : Prop :=
     same_shape G G' /\ forall a s, reach G a s <-> reach G' a s.
 
   Lemma same_shape_refl : forall G, same_shape G G.
-  Proof. induction G; constructor; [split; [reflexivity | split; [tauto | reflexivity]] | assumption]. Qed.
+  Proof. induction G; constructor; [split; [reflexivity | split; [tauto | split; [reflexivity | auto]]] | assumption]. Qed.
 
   Lemma same_shape_trans : forall G1 G2 G3, same_shape G1 G2 -> same_shape G2 G3 -> same_shape G1 G3.
   Proof.
-    intros G1 G2 G3 H12. revert G3. induction H12 as [|g1 g2 l1 l2 [Ha [Hb Hc]] H12 IH]; intros G3 H23.
+    intros G1 G2 G3 H12. revert G3. induction H12 as [|g1 g2 l1 l2 [Ha [Hb [Hc Hm]]] H12 IH]; intros G3 H23.
     - inversion H23. constructor.
-    - inversion H23 as [|x g3 l l3 [Hd [He Hf]] H23']; subst. constructor.
-      + split; [congruence|]. split; [|congruence]. intros i. rewrite He. apply Hb.
+    - inversion H23 as [|x g3 l l3 [Hd [He [Hf Hm']]] H23']; subst. constructor.
+      + split; [congruence|]. split; [|split; [congruence | auto]]. intros i. rewrite He. apply Hb.
       + apply IH. exact H23'.
   Qed.
 
@@ -403,24 +404,25 @@ Section Closure.
   Proof. intros G G' H. induction H; simpl; congruence. Qed.
 
   Lemma same_shape_in : forall G G' g', same_shape G G' -> In g' G' ->
-    exists g, In g G /\ gid g' = gid g /\ (forall i, In i (includes g') <-> In i (includes g)).
+    exists g, In g G /\ gid g' = gid g /\ (forall i, In i (includes g') <-> In i (includes g)) /\
+              (forall s, In s (members g') -> In s (members g)).
   Proof.
-    intros G G' g' H. induction H as [|g h l l' [Ha [Hb _]] _ IH]; intros Hi; [contradiction|].
+    intros G G' g' H. induction H as [|g h l l' [Ha [Hb [_ Hm]]] _ IH]; intros Hi; [contradiction|].
     destruct Hi as [Hi|Hi].
-    - subst. exists g. split; [left; reflexivity | split; assumption].
+    - subst. exists g. split; [left; reflexivity | split; [assumption | split; assumption]].
     - destruct (IH Hi) as [k [Hk1 Hk2]]. exists k. split; [right; exact Hk1 | exact Hk2].
   Qed.
 
   Lemma same_shape_acyclic : forall G G', same_shape G G' -> acyclic G -> acyclic G'.
   Proof.
     intros G G' H [rank Hr]. exists rank. intros g' i Hg' Hi.
-    destruct (same_shape_in _ _ _ H Hg') as [g [Hg [He Hinc]]]. rewrite He. apply (Hr g i Hg). apply Hinc. exact Hi.
+    destruct (same_shape_in _ _ _ H Hg') as [g [Hg [He [Hinc _]]]]. rewrite He. apply (Hr g i Hg). apply Hinc. exact Hi.
   Qed.
 
   Lemma same_shape_closed : forall G G', same_shape G G' -> closed G -> closed G'.
   Proof.
     intros G G' H Hc g' i Hg' Hi. rewrite (same_shape_gids _ _ H).
-    destruct (same_shape_in _ _ _ H Hg') as [g [Hg [He Hinc]]]. apply (Hc g i Hg). apply Hinc. exact Hi.
+    destruct (same_shape_in _ _ _ H Hg') as [g [Hg [He [Hinc _]]]]. apply (Hc g i Hg). apply Hinc. exact Hi.
   Qed.
 
   Lemma equiv_refl : forall G, equiv G G.
@@ -441,12 +443,13 @@ Section Closure.
 
   Lemma same_shape_replace : forall G a g g', lookup G a = Some g ->
     gid g' = gid g -> (forall i, In i (includes g') <-> In i (includes g)) -> nlex g' = nlex g ->
+    (forall s, In s (members g') -> In s (members g)) ->
     same_shape G (replace_first G a g').
   Proof.
-    induction G as [|h G IH]; intros a g g' Hl H1 H2 H3; simpl in *; [discriminate|].
+    induction G as [|h G IH]; intros a g g' Hl H1 H2 H3 H4; simpl in *; [discriminate|].
     destruct (String.eqb (gid h) a) eqn:E.
-    - inversion Hl; subst. constructor; [split; [assumption | split; assumption] | apply same_shape_refl].
-    - constructor; [split; [reflexivity | split; [tauto | reflexivity]]|]. eapply IH; eassumption.
+    - inversion Hl; subst. constructor; [split; [assumption | split; [assumption | split; assumption]] | apply same_shape_refl].
+    - constructor; [split; [reflexivity | split; [tauto | split; [reflexivity | auto]]]|]. eapply IH; eassumption.
   Qed.
 
   Lemma reach_replace : forall G a g g',
@@ -503,7 +506,7 @@ Section Closure.
     acyclic G -> lookup G a = Some g -> member_step G g g' -> equiv G (replace_first G a g').
   Proof.
     intros G a g g' Ha Hl Hs. split.
-    - destruct Hs as [H1 [H2 [H3 _]]]. eapply same_shape_replace; eassumption.
+    - destruct Hs as [H1 [H2 [H3 [H4 _]]]]. eapply same_shape_replace; eassumption.
     - eapply reach_replace; eassumption.
   Qed.
 End Closure.
@@ -695,8 +698,9 @@ Section OptimiseP.
     set (g1 := mkGroup (gid g) ms incs (nlex g)).
     destruct (nonemptyS incs && nonemptyZ ms); [|eexists; reflexivity].
     assert (Hss : same_shape G (replace_first G (gid g) g1)).
-    { rewrite Hga. eapply same_shape_replace; [exact Hl | reflexivity | | reflexivity].
-      intros i. unfold g1, incs; simpl. rewrite sortS_in, dedupS_in. tauto. }
+    { rewrite Hga. eapply same_shape_replace; [exact Hl | reflexivity | | reflexivity |].
+      - intros i. unfold g1, incs; simpl. rewrite sortS_in, dedupS_in. tauto.
+      - intros s. unfold g1, ms; simpl. rewrite dedupZ_in. tauto. }
     destruct (resolve_union_total segs (replace_first G (gid g) g1) fuel incs) as [l Hu].
     - eapply same_shape_acyclic; eassumption.
     - eapply same_shape_closed; eassumption.
